@@ -259,6 +259,29 @@ def main(argv):
                 if not fails:
                     terms.append(case_term(rep, init0, hist, order, final, flags, extras))
                     metas.append({'representation': rep, 'init': init0, 'history': hist})
+    # directed: a copy taken after an entry of a cached view was emptied (and possibly refilled) — the point where
+    # the copy's "non-empty entries of the views" (live_props / live_atts, theorem C07_copy_shows_same_content) matters
+    emptiers = [('obj_clear', 'p'), ('obj_remove', 'p', 'a'), ('setitem', 'p', []), ('props_delitem', 'p'), ('delitem', 'p'),
+                ('att_delvalue', 'att', 'i1'), ('set_attachment', 'att', None), ('del_attachment', 'att')]
+    refills = [None, ('obj_add', 'p', 'b'), ('props_setitem', 'p', ['c']), ('setitem', 'p', ['a', 'b']),
+               ('att_setvalue', 'att', 'i2', 'x'), ('set_attachment', 'att', {'i1': 'y'}), ('flush',)]
+    lasts = [None, ('copy1', ('obj_add', 'p', 'b')), ('orig', ('obj_add', 'p', 'c')), ('copy1', ('att_setvalue', 'att', 'i1', 'z')),
+             ('orig', ('att_setvalue', 'att', 'i2', 'w')), ('copy1', ('copy',))]
+    ndir = 0
+    for em in emptiers:
+        for rf in refills:
+            for la in lasts:
+                hist = [('orig', em)] + ([('orig', rf)] if rf else []) + [('orig', ('copy',))] + ([la] if la else [])
+                for rep in ('EventElement', 'ParsedEvent'):
+                    order, final, flags, extras, fails = run_history(rep, init0, hist)
+                    ndir += 1
+                    for sig, detail in fails:
+                        ck.oracle_failures.append({'signature': sig, 'input': {'representation': rep, 'init': init0, 'history': hist}, 'observed': detail})
+                    if not fails:
+                        terms.append(case_term(rep, init0, hist, order, final, flags, extras))
+                        metas.append({'representation': rep, 'init': init0, 'history': hist})
+    nex += ndir
+    ck.cov['directed_copy_after_emptying'] = '%d histories: %d emptying operations x %d refills x copy x %d follow-ups, both XML backed classes' % (ndir, len(emptiers), len(refills), len(lasts))
     ck.cov['evaluations'] += nex
     ck.cov['exhaustive_small_scope'] = 'all histories of depth %d over %d operations (copy included, last operation on original or copy)' % (depth, len(small_ops))
     bad, errs = run_cases(PID, IMPORTS, CASE_T, terms, AGREE, shard=120, tag='xml')
